@@ -10,6 +10,7 @@ CONSTANTS
   MaxCount = 1000000
   TickSteps = {1, 2, 3}
   MaxTracked = 1000
+  StaleMark = "ignore"
   SweepCap = 0
   IndexMode = "exact"
 INVARIANTS OneRecordPerRegistration PostSweepExact ExpiredNeverMatchesAfterSweep
